@@ -63,8 +63,13 @@ def replay(chk: Check, data):
         hdr = run_.header()
         ev = [run_.totals()]
         for o in tr["hdr"]["ops"]:
-            ev.append(run_.op(o))
-            ev.append(run_.totals())
+            if o["ev"] == "targeted_total":
+                ev.append(run_.targeted_total(o["which"]))
+                continue
+            ev.append(run_.failed_simulate() if o["ev"] == "failed_simulate" else
+                      run_.rebuild(o["n"], o["x"]) if o["ev"] == "rebuild" else run_.op(o))
+            if run_.model.auto_update:
+                ev.append(run_.totals())
         hdr["ops"] = tr["hdr"]["ops"]
         t = {"hdr": hdr, "ev": ev}
     chk.tv("Trace_LogProb.tla", [t], tag="replay", next_="TNext2", cfg_extra=TV_CFG,
